@@ -557,8 +557,9 @@ func genTable(pkgDir string) map[string][]byte {
 		b, _ := os.ReadFile(filepath.Join(src, e.Name()))
 		for _, line := range strings.Split(string(b), "\n") {
 			if strings.HasPrefix(line, "var v") && strings.Contains(line, " = ") {
-				n := strings.Fields(line)[1]
-				if len(n) > 1 && n[1] >= 'A' && n[1] <= 'Z' {
+				f := strings.Fields(line)
+				n := f[1]
+				if len(f) >= 4 && len(n) > 1 && n[1] >= 'A' && n[1] <= 'Z' && f[3][0] >= '0' && f[3][0] <= '9' {
 					fmt.Fprintf(&sb, "\t%q: &%s,\n", n, n)
 				}
 			}
